@@ -18,6 +18,15 @@ def check(run):
     def add(sc, label):
         scs.append(sc); labels.append(label)
 
+    # an abort that arrives LATE: the terminal reports its time-out (or any other failure) only after the read-card time it was
+    # given; the code must still surface — for long configured times as well (the client's patience is that time + 2 s)
+    for rct in (15, 59, 60, 61, 100, 254, 255):
+        for c in (0x6c, 0x64, 0x6f, 0x05):
+            sc = cc.Scenario(S, {"rct": rct}).start()
+            sc.ops.append("read_card")
+            sc.expect_write(S.read_card_req(rct)); sc.feed(cc.ACK); sc.feed(S.abort(c), delay=rct * 1000 + 1500); sc.expect_write(cc.ACK)
+            sc.exp_results.append("Err:NoCard" if c == 0x6c else ("Err:Msg:" + msg_text("Unhandled error: " + known[c])) if c in known else "Err:Msg:Unknown_error_code:_0x%X" % c)
+            add(sc, "read-card-late-abort")
     for c in range(256):
         for n_inter in ((0, 1, 2) if th else (rng.choice([0, 1, 2]),)):
             pre = [S.intermediate()] * n_inter
